@@ -345,6 +345,55 @@ fn check_asn1(c: &Asn1Case) -> CaseResult {
 }
 
 #[derive(Serialize, Deserialize, Hash, Debug, Clone)]
+pub struct EdgeAsn1 {
+    pub d: Hex,
+    pub point: usize,
+    pub msg_len: usize,
+    pub compressed: bool,
+    pub c1c3c2: bool,
+}
+
+/// a conforming SM2Cipher document whose (x, y) is a boundary point of the curve, written by the reference DER writer
+fn check_edge_asn1(c: &EdgeAsn1) -> CaseResult {
+    let eps = edge_points();
+    let (label, x, y) = &eps[c.point % eps.len()];
+    let d = from_be(&c.d);
+    let msg = expand_bytes(c.point as u64 ^ 0xa5e, c.msg_len.max(1));
+    let Some(w) = r2::encrypt_to_c1(&d, &r2::pt(x, y), &msg) else { return pass(false, "retry") };
+    let doc = der::sm2_cipher(x, y, &w.c3, &w.c2);
+    let sk = lib_sk(&d).map_err(|e| Fail { key: "entry=Sm2PrivateKey::new input=d-in-[1,n-2] outcome=rejected".into(), detail: e })?;
+    let got = outcome(|| sk.decrypt_asn1(&doc, c.compressed, model(c.c1c3c2)));
+    ensure!(got == Outcome::Ok(msg.clone()), "entry=Sm2PrivateKey::decrypt_asn1 input=conforming-document outcome=failure",
+        "(x, y) = edge point {} x={:x} y={:x}; compressed={} c1c3c2={} doc={}: {}", label, x, y, c.compressed, c.c1c3c2, hex::encode(&doc), got.describe());
+    pass(true, "asn1/edge-point")
+}
+
+/// a boundary point used as a public key: all decoders accept it, and the key works (encrypt to it, independent decryption impossible without d,
+/// so the check is decode -> encode -> same bytes, and verify() of a junk signature returns Err rather than panicking)
+fn check_edge_public(i: &usize) -> CaseResult {
+    let eps = edge_points();
+    let (label, x, y) = &eps[*i % eps.len()];
+    let q = r2::pt(x, y);
+    for compressed in [false, true] {
+        let enc = if compressed { r2::encode_compressed(&q) } else { r2::encode_uncompressed(&q) };
+        check_point_bytes(&PointBytes { bytes: Hex(enc.clone()) })?;
+        let pk = match outcome(|| Sm2PublicKey::new(&enc)) {
+            Outcome::Ok(k) => k,
+            o => return fail("entry=Sm2PublicKey::new input=valid outcome=rejected", format!("edge point {} {}: {}", label, hex::encode(&enc), o.describe())),
+        };
+        let back = catch(|| pk.to_bytes(compressed)).map_err(|p| Fail { key: "entry=Sm2PublicKey::to_bytes outcome=panic".into(), detail: p })?;
+        ensure!(back == enc, "entry=Sm2PublicKey::to_bytes outcome=wrong-bytes", "edge point {}: {} -> {}", label, hex::encode(&enc), hex::encode(&back));
+        let spki = lib_ok!("Sm2PublicKey::to_public_key_der", pk.to_public_key_der());
+        let spki = spki.as_bytes().to_vec();
+        let ps = der::parse_spki(&spki).ok_or_else(|| Fail { key: "entry=Sm2PublicKey::to_public_key_der outcome=not-a-valid-SPKI".into(), detail: hex::encode(&spki) })?;
+        ensure!(r2::decode_point(&ps).as_ref() == Some(&q), "entry=Sm2PublicKey::to_public_key_der outcome=wrong-point", "edge point {}: {}", label, hex::encode(&ps));
+        let v = outcome(|| pk.verify(None, b"edge", &[0x11u8; 64]));
+        ensure!(!v.is_panic(), "entry=Sm2PublicKey::verify input=edge-public-key outcome=panic", "edge point {}: {}", label, v.describe());
+    }
+    pass(true, "edge-public-key")
+}
+
+#[derive(Serialize, Deserialize, Hash, Debug, Clone)]
 pub struct Idx {
     pub key: usize,
     pub enc: usize,
@@ -515,6 +564,18 @@ pub fn run(ctx: &Ctx) {
         (gen::secret_scalar(&(&n - 2u32)), gen::secret_scalar(&(&n - 1u32)), 1..=300usize, any::<u64>(), any::<bool>(), any::<bool>())
             .prop_map(|(d, k, msg_len, msg_seed, compressed, c1c3c2)| Asn1Case { d, k, msg_len, msg_seed, compressed, c1c3c2 })
     }, check_asn1);
+
+    ctx.listed("edge_point_public_keys", "boundary points of the curve (x next to 0, n, p, powers of two, Montgomery limb patterns, y with a leading zero byte) as public keys: every decoder, re-encoding, SPKI", || (0..edge_points().len()).collect::<Vec<usize>>(), check_edge_public);
+
+    ctx.listed("asn1_edge_points", "SM2Cipher documents whose (x, y) is a boundary point, written by the reference DER writer, x 4 flag combinations", move || {
+        let mut v = Vec::new();
+        for point in 0..edge_points().len() {
+            for cfg in 0..4u8 {
+                v.push(EdgeAsn1 { d: gen::hex32(&(from_be(&expand_bytes(seed ^ 0xa53, 32)) % (&r2::params().n - 2u32) + 1u32)), point, msg_len: 1 + (point * 5 + cfg as usize) % 60, compressed: cfg & 1 == 1, c1c3c2: cfg & 2 == 2 });
+            }
+        }
+        v
+    }, check_edge_asn1);
 
     ctx.listed("asn1_openssl_documents", "72 SM2Cipher documents written by OpenSSL decrypt through decrypt_asn1", || {
         let mut v = Vec::new();
